@@ -1,4 +1,4 @@
-(** C07 — statements that are NOT proved in this round.  They are kept as [Definition]s (no
+(** C07 — statements that are NOT proved (after round 2 only the stack-trie equality is left).  They are kept as [Definition]s (no
     axioms) so that the reading of the property is auditable; the harness carries them
     differentially (implementation vs model, byte for byte, and direct oracles). *)
 From Coq Require Import List NArith Arith Bool.
@@ -28,13 +28,5 @@ Definition C07_stack_equals_statement : Prop :=
   Forall (fun kv => is_bytes (fst kv) /\ snd kv <> []) kvs ->
   sorted_prefix_free kvs ->
   stack_root H kvs = Some (build_root H kvs).
-
-(** the canonical constructor agrees with the operational trie *)
-Definition C07_build_canonical_statement : Prop :=
-  forall d ops n, Forall (fun o => is_bytes (mop_key o)) ops -> run d Empty ops = Ok n ->
-  forall m : list (key * bytes),
-    NoDup (map fst m) ->
-    (forall k w, has n k w <-> In (k, w) m) ->
-    erase n = erase (build (build_fuel m) m).
 
 End Open.
